@@ -23,10 +23,26 @@ pub mod nom {
                     && exists|s: &str| s@ == input@.take(digits_prefix_len(input@)) && #[trigger] f.ensures((s,), Ok(t.1))
     { unimplemented!() }
     // fold_many1(f, init, g)(input): applies f at least once, folding its results with g starting from init()
+    // A successful fold_many1 is a chain: f succeeds n >= 1 times, each time on what the previous application left, and the
+    // accumulator goes from init() through g(acc, output) to the result; the remaining input is what the last application left
+    // (f fails on it, or does not consume - not needed here).
+    pub open spec fn fold_chain<'a, O, R, F: Fn(&'a str) -> IResult<&'a str, O>, H: Fn() -> R, G: Fn(R, O) -> R>(
+        f: F, init: H, g: G, input: &'a str, rest: &'a str, res: R, ins: Seq<&'a str>, outs: Seq<O>, accs: Seq<R>) -> bool
+    {
+        &&& outs.len() >= 1 && ins.len() == outs.len() + 1 && accs.len() == outs.len() + 1
+        &&& ins[0] == input && ins.last() == rest && accs.last() == res
+        &&& init.ensures((), accs[0])
+        &&& forall|i: int| 0 <= i < outs.len() ==> f.ensures((#[trigger] ins[i],), Ok((ins[i + 1], outs[i])))
+        &&& forall|i: int| 0 <= i < outs.len() ==> g.ensures((#[trigger] accs[i], outs[i]), accs[i + 1])
+    }
     #[verifier::external_body]
     pub fn fold_many1<'a, O, R, F: Fn(&'a str) -> IResult<&'a str, O>, H: Fn() -> R, G: Fn(R, O) -> R>(f: F, init: H, g: G, input: &'a str) -> (r: IResult<&'a str, R>)
         requires forall|s: &'a str| f.requires((s,)), init.requires(()), forall|a: R, o: O| g.requires((a, o))
+        ensures r matches Ok(t) ==> exists|ins: Seq<&'a str>, outs: Seq<O>, accs: Seq<R>| fold_chain(f, init, g, input, t.0, t.1, ins, outs, accs)
     { unimplemented!() }
+    // S.len() of a str: its length in bytes, zero exactly for the empty text (rule T-STR)
+    #[verifier::external_body]
+    pub fn byte_len(s: &str) -> (n: usize) ensures (n == 0) == (s@.len() == 0) { s.len() }
     // S.chars().next()
     #[verifier::external_body]
     pub fn first_char(s: &str) -> (r: Option<char>)
